@@ -75,7 +75,7 @@ func main() {
 		for _, l := range rep.Skipped {
 			fmt.Println("skipped:", l)
 		}
-		fmt.Println("rounds:", rep.Rounds, "failed:", rep.Failed, "dropped:", rep.Dropped)
+		fmt.Println("rounds:", rep.Rounds, "failed:", rep.Failed, "dropped:", rep.Dropped, "renamed:", rep.Renamed)
 		if len(os.Args) > 3 {
 			for name, src := range p.Overlay {
 				if strings.HasSuffix(name, os.Args[3]) {
